@@ -32,6 +32,7 @@ def make(pid, macro, profile, named, idx, seed, gates=None, heavy=False):
                 snapshot[(b, s)] = j
     pp = PP(macro, profile, carrier=carrier, can_fail=False, lets=lets, styles=styles, captures=captures, snapshot=snapshot, gates=gates)
     pp.gate_steps = {0}
+    pp.mutate_names = not is_async and not KINDS[macro][2]     # (a spawn macro's capture runs on the caller too, but keep the thread kinds as they are)
     text = pp.text()
     L = ["names_off();" if is_spawn and not is_async else "", pp.decls()]
     if is_async:
@@ -72,7 +73,8 @@ def programs(tier, seed):
             for named in subsets(len(prof), tier, r):
                 i += 1
                 ps.append(make("p%04d" % i, macro, prof, named, i, seed))
-    aprofs = [("join_async", (2, 2), {0, 1}), ("try_join_async", (1, 2), {0}), ("try_join_async", (2, 2), {1})]
+    aprofs = [("join_async", (2, 2), {0, 1}), ("try_join_async", (1, 2), {0}), ("try_join_async", (2, 2), {1}),
+              ("join_async", (3,), {0}), ("try_join_async", (2,), {0}), ("join_async_spawn", (2, 1), {1})]
     if tier == "thorough":
         aprofs += [("join_async", (1, 2), {0, 1}), ("join_async", (2, 2, 1), {2}), ("join_async_spawn", (2, 2), {0}), ("try_join_async_spawn", (1, 2), {0, 1})]
     for macro, prof, named in aprofs:
